@@ -807,7 +807,8 @@ func (tx *OngoingTx) checkPreconditions(ctx context.Context, st *ImmuStore) erro
 	for _, txSnap := range tx.snapshots {
 		if txSnap.Ts() > st.LastPrecommittedTxID() {
 			// read-write transactions when no other transaction was committed won't be invalidated
-			return nil
+			// (reads made through the snapshots of other indexes still need to be validated)
+			continue
 		}
 
 		// current snapshot is fetched without flushing
